@@ -13,7 +13,7 @@
 //     ClearCurrentBlock, CloseCurrentBlock, GetBlockScope, PutBlockScope, BlockScope.Clear, NewChildProcessor,
 //     Processor.Close — small functions, compared verbatim with a reviewed text;
 //  3. the block handling of the statements as ordered call lists with `defer`, `for{ }` and `return` markers
-//     (`blockHandling`): executeChild, IfStmt, Case, While, WhileInCursor, UserDefinedFunction.Execute /
+//     (`blockHandling`): Execute (auto-commit), execute, executeChild, IfStmt, Case, While, WhileInCursor, UserDefinedFunction.Execute /
 //     ExecuteAggregate / execute — EVERY call is listed, none is dropped;
 //  4. which handler ExecuteStatement gives each statement type to (`dispatch`).
 //
@@ -677,7 +677,7 @@ func main() {
 	}
 	b.WriteString("]\n\n")
 
-	handlers := []small{{prFile, "Processor", "execute"}, {prFile, "Processor", "executeChild"}, {prFile, "Processor", "IfStmt"}, {prFile, "Processor", "Case"},
+	handlers := []small{{prFile, "Processor", "Execute"}, {prFile, "Processor", "execute"}, {prFile, "Processor", "executeChild"}, {prFile, "Processor", "IfStmt"}, {prFile, "Processor", "Case"},
 		{prFile, "Processor", "While"}, {prFile, "Processor", "WhileInCursor"}, {fnFile, "UserDefinedFunction", "Execute"},
 		{fnFile, "UserDefinedFunction", "ExecuteAggregate"}, {fnFile, "UserDefinedFunction", "execute"}}
 	b.WriteString("/-- block handling of the statements: every call in order, with defer / for{ } / if{ } / return markers -/\ndef blockHandling : List (String × List String) :=\n  [")
